@@ -157,10 +157,8 @@ def WSt.plainValue (o : SubsetOut) (s : WSt) : CM (Node × WSt) :=
   | .error e => .error e
   | .ok (n, _, s) => .ok (n, s)
 
-/-- `wire_operator_descriptor` -/
-def wireOperator (o : SubsetOut) (id : Nat) (s : WSt) : CM (Node × WSt) :=
-  let code := id / 1000
-  let y := id % 1000
+/-- `wire_operator_descriptor`, `code` = `operator_code`, `y` = `operand_value` -/
+def wireOperatorCY (o : SubsetOut) (id code y : Nat) (s : WSt) : CM (Node × WSt) :=
   if code = 201 ∨ code = 202 ∨ code = 203 ∨ code = 206 ∨ code = 207 ∨ code = 208 then .ok (.noval id, s)
   else if code = 204 then
     if y = 0 then
@@ -188,6 +186,10 @@ def wireOperator (o : SubsetOut) (id : Nat) (s : WSt) : CM (Node × WSt) :=
   else if code = 236 ∨ code = 237 then s.plainValue o
   else .error .other                                  -- NotImplementedError
 
+/-- `wire_operator_descriptor` -/
+def wireOperator (o : SubsetOut) (id : Nat) (s : WSt) : CM (Node × WSt) :=
+  wireOperatorCY o id (id / 1000) (id % 1000) s
+
 /-- `range(self.decoded_values[factor_node.index])` -/
 def wireCount (o : SubsetOut) (i : Nat) : CM Nat :=
   match o.vals[i]? with
@@ -204,6 +206,11 @@ def wireRepeat (f : WSt → CM (List Node × WSt)) : Nat → WSt → CM (List No
       | .error e => .error e
       | .ok (ns', s'') => .ok (ns ++ ns', s'')
 
+/-- the test under `if self.data_not_present_count:`: an element descriptor outside classes 1-9 and 31 -/
+def dnpSkips : Desc → Bool
+  | .elem e => !((1 ≤ xOf e.id && xOf e.id ≤ 9) || xOf e.id == 31)
+  | _ => false
+
 mutual
 /-- `wire_members`: one node per member, in order -/
 def wireList (o : SubsetOut) : List Desc → WSt → CM (List Node × WSt)
@@ -219,11 +226,7 @@ def wire1 (o : SubsetOut) : Desc → WSt → CM (Node × WSt)
   | d, s0 =>
     let dnp := s0.dnp
     let s : WSt := if dnp ≠ 0 then { s0 with dnp := dnp - 1 } else s0
-    let skip : Bool :=
-      dnp ≠ 0 && (match d with
-        | .elem e => !((1 ≤ xOf e.id && xOf e.id ≤ 9) || xOf e.id == 31)
-        | _ => false)
-    if skip then .ok (.noval d.id, s)
+    if (dnp ≠ 0 && dnpSkips d) = true then .ok (.noval d.id, s)
     else
       match d with
       | .elem e => wireElement o e.id s
@@ -256,14 +259,26 @@ end
 def tabFor (tab : List (Nat × Node)) (i : Nat) : List Node :=
   (tab.reverse.filter (fun p => p.1 == i)).map (·.2)
 
+/-- `[g(a) for a in l]`, the first failure aborts -/
+def mapE {α β : Type} (g : α → CM β) : List α → CM (List β)
+  | [] => .ok []
+  | a :: as => match g a with
+    | .error e => .error e
+    | .ok b => match mapE g as with
+      | .error e => .error e
+      | .ok bs => .ok (b :: bs)
+
 /-- a value node with all its attributes (own ones first, then the attached ones), recursively.
     Out of fuel = a cycle of attributes (Python: unbounded recursion in every renderer). -/
 def resolveV (tab : List (Nat × Node)) : Nat → Node → CM Node
   | 0, _ => .error .other
-  | f + 1, .value k i own => do
-    let as1 ← own.mapM (resolveV tab f)
-    let as2 ← (tabFor tab i).mapM (resolveV tab f)
-    pure (.value k i (as1 ++ as2))
+  | f + 1, .value k i own =>
+    match mapE (resolveV tab f) own with
+    | .error e => .error e
+    | .ok as1 =>
+      match mapE (resolveV tab f) (tabFor tab i) with
+      | .error e => .error e
+      | .ok as2 => .ok (.value k i (as1 ++ as2))
   | _, n => .ok n
 
 mutual
